@@ -67,6 +67,7 @@ class Parser:
             Parser.
         """
         self._entrypoint_cell = cell
+        self._entrypoint_cell_has_been_changed = True
         return self
 
     def _translate(self) -> Parser:
